@@ -1,0 +1,124 @@
+//go:build verif
+
+package reconciling
+
+// Machine-checked contracts for package reconciling (comment-only; see klog/contracts_verif.go). Property C03.
+
+// insert splices len(texts) new lines into r.lines at lineIndex: every existing line survives unchanged (text and line
+// ending) and in its original order - the lines before lineIndex keep their position, the others move down by
+// len(texts) - with one exception: the line directly before the insertion point gets the record's line ending if it
+// had none (the former last line of a file without final newline). The new lines form one contiguous block.
+//@ func (*Reconciler).insert
+//@ requires r != nil && r.style != nil && 0 <= lineIndex && lineIndex <= len(r.lines) && forall(k, 0, len(texts), texts[k].indentation >= 0)
+//@ modifies r.lines
+//@ let old_lines = old(r.lines)
+//@ let n = len(texts)
+//@ ensures len(r.lines) == len(old_lines) + n
+//@ ensures forall(p, 0, lineIndex - 1, same(r.lines[p], old_lines[p]))
+//@ ensures implies(lineIndex > 0, same(r.lines[lineIndex-1].Text, old_lines[lineIndex-1].Text) && implies(old_lines[lineIndex-1].LineEnding != "", same(r.lines[lineIndex-1], old_lines[lineIndex-1])))
+//@ ensures forall(p, lineIndex + n, len(old_lines) + n, same(r.lines[p], old_lines[p - n]))
+//@ loop 1 invariant len(result) == len(r.lines) + len(texts) && same(r.lines, old(r.lines))
+//@ loop 1 invariant offset == min(max(rangeindex + 1 - lineIndex, 0), len(texts))
+//@ loop 1 invariant forall(p, 0, min(rangeindex + 1, lineIndex), same(result[p], r.lines[p]))
+//@ loop 1 invariant forall(p, lineIndex + len(texts), rangeindex + 1, same(result[p], r.lines[p - len(texts)]))
+
+// spliced(old, new, at, n): new is old with n lines inserted at index `at`; the line before the insertion point may have
+// received a line ending if it had none; nothing else differs.
+//@ spec spliced(o []txt.Line, nw []txt.Line, at int, n int) bool = len(nw) == len(o) + n && forall(p, 0, at - 1, same(nw[p], o[p])) && implies(at > 0, same(nw[at-1].Text, o[at-1].Text) && implies(o[at-1].LineEnding != "", same(nw[at-1], o[at-1]))) && forall(p, at + n, len(o) + n, same(nw[p], o[p - n]))
+
+// One line for the entry value plus first summary line, one further line per additional summary line.
+//@ func toMultilineEntryTexts
+//@ ensures len(result) == max(1, len(entrySummary)) && forall(k, 0, len(result), result[k].indentation >= 0)
+//@ loop 1 invariant len(result) == rangeindex + 2 && forall(k, 0, len(result), result[k].indentation >= 0)
+
+// countLines: the number of summary lines of the entries (each entry occupies that many lines of the file).
+//@ spec slines(es []klog.Entry, n int) int = sum(k, 0, n, len(es[k].summary))
+//@ func countLines
+//@ ensures result == slines(es, len(es))
+//@ loop 1 invariant result == slines(es, rangeindex + 1)
+
+// AppendEntry: a splice at the record's insertion point; it never fails.
+//@ func (*Reconciler).AppendEntry
+//@ requires r != nil && r.style != nil && 0 <= r.lastLinePointer && r.lastLinePointer <= len(r.lines)
+//@ modifies r.lines
+//@ ensures isnil(result) && spliced(old(r.lines), r.lines, r.lastLinePointer, max(1, len(newEntry)))
+
+// ---------------------------------------------------------------------------------------------
+// The reconciler's line arithmetic. es(r) are the entries of the target record; the entry with index i starts at line
+// lineOf(r, i) = lastLinePointer - (number of summary lines of the entries i..end) and occupies one line per summary
+// line. recOk(r) is the data-structure invariant the operations rely on (established by the creators from the
+// parser's block): the entry lines lie inside the file's lines, below the record's insertion point.
+//@ spec es(r *Reconciler) []klog.Entry = r.Record.(*klog.record).entries
+//@ spec lineOf(r *Reconciler, i int) int = r.lastLinePointer - slines(es(r)[i:], len(es(r)) - i)
+//@ spec recOk(r *Reconciler) bool = r != nil && r.style != nil && typeis(r.Record, *klog.record) && 0 <= r.lastLinePointer && r.lastLinePointer <= len(r.lines) && forall(i, 0, len(es(r)), klog.ekind(es(r)[i]) && len(es(r)[i].summary) >= 1 && lineOf(r, i) >= 0 && lineOf(r, i) + len(es(r)[i].summary) <= r.lastLinePointer)
+//@ spec prefixof(a string, b string) bool = len(a) <= len(b) && forall(k, 0, len(a), b[k] == a[k])
+
+//@ func (*Reconciler).findLastEntry
+//@ requires r != nil && typeis(r.Record, *klog.record)
+//@ ensures -1 <= result && result < len(es(r))
+//@ loop 1 invariant -1 <= candidate && candidate <= rangeindex
+
+//@ func (*Reconciler).findOpenRangeIndex
+//@ requires r != nil && typeis(r.Record, *klog.record)
+//@ ensures -1 <= result && result < len(es(r))
+
+// concatenateSummary: appends text to the last summary line of entry `entryIndex` and inserts the further summary
+// lines right after it.
+//@ func (*Reconciler).concatenateSummary
+//@ requires r != nil && r.style != nil && typeis(r.Record, *klog.record) && 0 <= entryIndex && entryIndex < len(es(r)) && len(es(r)[entryIndex].summary) >= 1 && 0 <= entryLineIndex && entryLineIndex + len(es(r)[entryIndex].summary) <= len(r.lines)
+//@ modifies r.lines, elems(r.lines)
+// line `at` (the entry's last summary line) keeps its line ending (unless it had none and lines are added after it) and
+// its text is extended (the old text is a prefix of the new one); n lines are inserted right after it; all other lines
+// survive unchanged in their order. (old(...) is applied per element: the lines are edited in place.)
+//@ ensures len(r.lines) == old(len(r.lines)) + max(0, len(additionalSummary) - 1)
+//@ ensures forall(p, 0, (entryLineIndex + old(len(es(r)[entryIndex].summary)) - 1), same(r.lines[p], old(r.lines[p])))
+//@ ensures prefixof(old(r.lines[entryLineIndex + len(es(r)[entryIndex].summary) - 1].Text), r.lines[(entryLineIndex + old(len(es(r)[entryIndex].summary)) - 1)].Text)
+//@ ensures implies(max(0, len(additionalSummary) - 1) == 0 || old(r.lines[entryLineIndex + len(es(r)[entryIndex].summary) - 1].LineEnding) != "", same(r.lines[(entryLineIndex + old(len(es(r)[entryIndex].summary)) - 1)].LineEnding, old(r.lines[entryLineIndex + len(es(r)[entryIndex].summary) - 1].LineEnding)))
+//@ ensures forall(p, (entryLineIndex + old(len(es(r)[entryIndex].summary)) - 1) + 1 + max(0, len(additionalSummary) - 1), old(len(r.lines)) + max(0, len(additionalSummary) - 1), same(r.lines[p], old(r.lines[p - max(0, len(additionalSummary) - 1)])))
+//@ loop 1 invariant len(subsequentSummaryLines) == rangeindex + 1 && forall(k, 0, len(subsequentSummaryLines), subsequentSummaryLines[k].indentation >= 0)
+
+// closed(o, nw, v, l, n): the open range's value line v has its text rewritten and keeps its line ending; the entry's
+// last summary line l (v <= l) gets text appended; n summary lines are inserted right after l; every other line
+// survives unchanged in its order.
+//@ spec closed(o []txt.Line, nw []txt.Line, v int, l int, n int) bool = len(nw) == len(o) + n && forall(p, 0, v, same(nw[p], o[p])) && implies(v < l || n == 0 || o[v].LineEnding != "", same(nw[v].LineEnding, o[v].LineEnding)) && forall(p, v + 1, l, same(nw[p], o[p])) && implies(v < l, prefixof(o[l].Text, nw[l].Text) && implies(n == 0 || o[l].LineEnding != "", same(nw[l].LineEnding, o[l].LineEnding))) && forall(p, l + 1 + n, len(o) + n, same(nw[p], o[p - n]))
+
+// CloseOpenRange: on failure nothing is touched; on success only the open range's lines are edited.
+//@ func (*Reconciler).CloseOpenRange
+//@ requires recOk(r) && typeis(endTime, *klog.time)
+//@ modifies r.lines, elems(r.lines), elems(r.Record.(*klog.record).entries)
+//@ ensures implies(nonnil(result), same(r.lines, old(r.lines)) && forall(p, 0, len(r.lines), same(r.lines[p], old(r.lines[p]))))
+//@ before ReplaceAllString assert 0 <= openRangeEntryIndex && openRangeEntryIndex < old(len(es(r))) && openRangeValueLineIndex == old(lineOf(r, openRangeEntryIndex))
+//@ before ReplaceAllString bind oi = openRangeEntryIndex
+// (the six conjuncts of closed(old lines, new lines, v, l, n) for the open range entry oi, one obligation each)
+//@ ensures implies(isnil(result), 0 <= oi && oi < old(len(es(r))) && len(r.lines) == old(len(r.lines)) + max(0, len(additionalSummary) - 1))
+//@ ensures implies(isnil(result), forall(p, 0, old(lineOf(r, oi)), same(r.lines[p], old(r.lines[p]))))
+//@ ensures implies(isnil(result), implies(old(lineOf(r, oi)) < old(lineOf(r, oi) + len(es(r)[oi].summary) - 1) || max(0, len(additionalSummary) - 1) == 0 || old(r.lines[lineOf(r, oi)].LineEnding) != "", same(r.lines[old(lineOf(r, oi))].LineEnding, old(r.lines[lineOf(r, oi)].LineEnding))))
+//@ ensures implies(isnil(result), forall(p, old(lineOf(r, oi)) + 1, old(lineOf(r, oi) + len(es(r)[oi].summary) - 1), same(r.lines[p], old(r.lines[p]))))
+//@ ensures implies(isnil(result) && old(lineOf(r, oi)) < old(lineOf(r, oi) + len(es(r)[oi].summary) - 1), prefixof(old(r.lines[lineOf(r, oi) + len(es(r)[oi].summary) - 1].Text), r.lines[old(lineOf(r, oi) + len(es(r)[oi].summary) - 1)].Text) && implies(max(0, len(additionalSummary) - 1) == 0 || old(r.lines[lineOf(r, oi) + len(es(r)[oi].summary) - 1].LineEnding) != "", same(r.lines[old(lineOf(r, oi) + len(es(r)[oi].summary) - 1)].LineEnding, old(r.lines[lineOf(r, oi) + len(es(r)[oi].summary) - 1].LineEnding))))
+//@ ensures implies(isnil(result), forall(p, old(lineOf(r, oi) + len(es(r)[oi].summary) - 1) + 1 + max(0, len(additionalSummary) - 1), old(len(r.lines)) + max(0, len(additionalSummary) - 1), same(r.lines[p], old(r.lines[p - max(0, len(additionalSummary) - 1)]))))
+
+// StartOpenRange: fails without touching anything if the record already has an open range; otherwise a splice at the
+// record's insertion point (one line for the open range and the first summary line, one per further summary line).
+//@ func (*Reconciler).StartOpenRange
+//@ requires r != nil && r.style != nil && typeis(r.Record, *klog.record) && 0 <= r.lastLinePointer && r.lastLinePointer <= len(r.lines) && typeis(startTime, *klog.time) && r.style.openRangeAdditionalPlaceholderChars.value >= 0
+//@ modifies r.lines
+//@ ensures implies(nonnil(result), same(r.lines, old(r.lines)))
+//@ ensures implies(isnil(result), spliced(old(r.lines), r.lines, r.lastLinePointer, max(1, len(entrySummary))))
+
+// ExtendPause: only the text of one line changes (the pause entry's value line); every line keeps its line ending and
+// all other lines are untouched; on failure nothing changes.
+//@ func (*Reconciler).ExtendPause
+//@ requires recOk(r) && typeis(increment, *klog.duration) && forall(i, 0, len(es(r)), klog.tiny(klog.edur(es(r)[i]))) && klog.tiny(klog.dmin(increment))
+//@ modifies elems(r.lines)
+//@ ensures same(r.lines, old(r.lines))
+//@ ensures implies(nonnil(result), forall(p, 0, len(r.lines), same(r.lines[p], old(r.lines[p]))))
+//@ before FindString bind pl = pauseLineIndex
+//@ ensures implies(isnil(result), 0 <= pl && pl < len(r.lines) && forall(p, 0, len(r.lines), implies(p != pl, same(r.lines[p], old(r.lines[p])))) && forall(p, 0, len(r.lines), same(r.lines[p].LineEnding, old(r.lines[p].LineEnding))))
+
+// AppendPause: fails without touching the lines if there is no open range; otherwise a splice at the insertion point.
+// (It writes the pause value into the first line of the caller's summary slice.)
+//@ func (*Reconciler).AppendPause
+//@ requires r != nil && r.style != nil && typeis(r.Record, *klog.record) && 0 <= r.lastLinePointer && r.lastLinePointer <= len(r.lines)
+//@ modifies r.lines, elems(summary)
+//@ ensures implies(nonnil(result), same(r.lines, old(r.lines)))
+//@ ensures implies(isnil(result), spliced(old(r.lines), r.lines, r.lastLinePointer, max(1, len(summary))))
